@@ -1,4 +1,4 @@
-\* MC_MxIOSpec_quick1.cfg2
+\* one model, modules and space deletion: all histories of 4 operations
 CONSTANTS
   Models = {"M1"}
   BaseInit = {"M1"}
@@ -8,7 +8,7 @@ CONSTANTS
   PVals = {1, 2}
   MVals = {3}
   WithDelSpace = TRUE
-  ExploreTainted = FALSE
+  OpenFindings = {"KF:C18.update-merges-specs"}
   MaxOps = 4
   Dump = TRUE
 VIEW View
@@ -20,4 +20,5 @@ INVARIANT Inv_C18_LocationsUnique
 INVARIANT Inv_C18_RejectedLeavesNothing
 INVARIANT Inv_C18_SanityChecks
 INVARIANT Inv_C18_SavedSpecsRoundTrip
+INVARIANT Inv_NoRepairedFinding
 CHECK_DEADLOCK FALSE
